@@ -185,7 +185,7 @@ func checkC08(c *BatchOpsCase) *ev.Failure {
 
 func TestC08(t *testing.T) {
 	rec := ev.Get("C08")
-	rec.Rule = "world x batch of 0..6 operations (12 thorough) mixing valid queries, mutations, introspection, operations made invalid by an edit, documents with two operations and no operationName, verbatim repeats, operations whose downstream call fails (fault keyed by call content) and slow ones (delay keyed by call content), plain planner; oracle: the response is an array of the same length and element i equals (canonical data, error multiset) what operation i receives when posted alone to the same gateway under the same content-keyed rules; non-trivial = batch >=2 with >=1 valid and >=1 failing/invalid element; distinct by hash(case)"
+	rec.Rule = "world x batch of 0..6 operations (12 thorough) mixing valid queries, mutations, introspection, operations made invalid by an edit, documents with two operations and no operationName, subscription operations posted over HTTP, verbatim repeats, operations whose downstream call fails (fault keyed by call content) and slow ones (delay keyed by call content), plain planner; oracle: the response is an array of the same length and element i equals (canonical data, error multiset) what operation i receives when posted alone to the same gateway under the same content-keyed rules; non-trivial = batch >=2 with >=1 valid and >=1 failing/invalid element; distinct by hash(case)"
 	defer census.dump("C08")
 	mixIntrospection = true
 	defer func() { mixIntrospection = false }()
@@ -197,6 +197,7 @@ func TestC08(t *testing.T) {
 		wopt := world.DefaultOptions()
 		wopt.MinServices = 2
 		wopt.ForceMutations = true
+		wopt.Subscriptions = rapid.IntRange(0, 3).Draw(t, "withsubs") == 0
 		m := world.Generate(t, wopt)
 		w := m.Build()
 		w.Store = world.GenerateStore(t, m, world.DefaultStoreOptions())
@@ -211,7 +212,7 @@ func TestC08(t *testing.T) {
 		n := rapid.SampledFrom([]int{0, 1, 2, 2, 3, 3, 4, 4, 5, 6, maxOps, maxOps - 1}).Draw(t, "nops")
 		valid, bad := 0, 0
 		for i := 0; i < n; i++ {
-			kind := rapid.SampledFrom([]string{"valid", "valid", "valid", "mutation", "invalid", "ambiguous", "introspection", "repeat", "failing", "slow"}).Draw(t, "kind")
+			kind := rapid.SampledFrom([]string{"valid", "valid", "valid", "mutation", "invalid", "ambiguous", "subscription", "introspection", "repeat", "failing", "slow"}).Draw(t, "kind")
 			o := opgen.DefaultOptions()
 			o.IDs = entityIDs(w.Store)
 			applyGates(&o)
@@ -222,6 +223,21 @@ func TestC08(t *testing.T) {
 			switch kind {
 			case "introspection":
 				req = gwx.GQLRequest{Query: rapid.SampledFrom(introspectionOps).Draw(t, "intro")}
+			case "subscription":
+				// a subscription operation posted over HTTP: whatever the answer is, it is the same in a batch and alone
+				if union.Subscription == nil || len(union.Subscription.Fields) == 0 {
+					kind = "valid"
+					break
+				}
+				sf := union.Subscription.Fields[rapid.IntRange(0, len(union.Subscription.Fields)-1).Draw(t, "subfield")]
+				if hasRequiredArgument(sf) {
+					kind = "valid"
+					break
+				}
+				req = gwx.GQLRequest{Query: fmt.Sprintf("subscription { %s { __typename } }", sf.Name)}
+				if _, errs := gqlparser.LoadQuery(union, req.Query); errs != nil {
+					req, kind = gwx.GQLRequest{}, "valid"
+				}
 			case "ambiguous":
 				// several elements of one batch may be refused for the same reason (two operations, no operationName)
 				req = gwx.GQLRequest{Query: rapid.SampledFrom([]string{"query A { __typename } query B { __typename }", "query A { __typename }\nmutation B { __typename }"}).Draw(t, "amb")}
@@ -289,7 +305,7 @@ func TestC08(t *testing.T) {
 			}
 			c.Ops = append(c.Ops, req)
 			c.Kinds = append(c.Kinds, kind)
-			if kind == "invalid" || kind == "failing" || kind == "ambiguous" {
+			if kind == "invalid" || kind == "failing" || kind == "ambiguous" || kind == "subscription" {
 				bad++
 			} else {
 				valid++
